@@ -282,23 +282,23 @@ func TestContention(t *testing.T) {
 			Mode: rapid.SampledFrom([]string{"same-create", "same-link", "distinct-create", "create-vs-atomic", "link-vs-atomic", "read-vs-append"}).Draw(t, "mode"),
 			K:    rapid.IntRange(2, 8).Draw(t, "k"),
 		}
-		if c.Mode == "link-vs-atomic" && c.Impl == "dir" && ev.SwitchOn(swK1) {
+		if c.Mode == "link-vs-atomic" && c.Impl == "dir" && models.KnownSwitch(swK1) {
 			// known finding K1: DirFs.Link fails spuriously while its source name is being replaced
 			ev.Prune(swK1)
 			c.Mode = "same-link"
 		}
 		if c.Mode == "read-vs-append" {
-			if c.Impl == "dir" && ev.SwitchOn(swK2) {
+			if c.Impl == "dir" && models.KnownSwitch(swK2) {
 				// known finding K2: a DirFs.ReadAt concurrent with a multi-page Append sees part of it
 				ev.Prune(swK2)
 				c.Mode = "distinct-create"
-			} else if c.Impl == "mem" && ev.SwitchOn(swL2) {
+			} else if c.Impl == "mem" && models.KnownSwitch(swL2) {
 				// known finding L2: Open while the creator's descriptor is open
 				ev.Prune(swL2)
 				c.Mode = "distinct-create"
 			}
 		}
-		if c.Mode == "create-vs-atomic" && c.Impl == "dir" && ev.SwitchOn(swL3) && c.K > 3 {
+		if c.Mode == "create-vs-atomic" && c.Impl == "dir" && models.KnownSwitch(swL3) && c.K > 3 {
 			// known finding L3: two concurrent DirFs.AtomicCreate calls of one name share the staging file
 			ev.Prune(swL3)
 			c.K = 3
